@@ -97,12 +97,18 @@ func alwaysReturnsNilError(f *ssa.Function) bool {
 	if n == 0 {
 		return false
 	}
-	rv := returnValues(f, n-1)
-	if len(rv) == 0 {
+	// the real returns (not the one of the recover block that a defer adds), results read back through the slots a
+	// defer spills them to
+	rets := realReturns(f)
+	if len(rets) == 0 {
 		return false
 	}
-	for _, v := range rv {
-		c, ok := v.(*ssa.Const)
+	for _, rt := range rets {
+		res := retResults(rt)
+		if n-1 >= len(res) {
+			return false
+		}
+		c, ok := res[n-1].(*ssa.Const)
 		if !ok || c.Value != nil {
 			return false
 		}
